@@ -182,7 +182,18 @@ func ruleAdminStar(c *Ctx) {
 		n++
 		// facts: field.Admin=true and a len(...)==0 comparison on the same field
 		lenZero := false
+		extra := 0
 		domConds(ins, func(cond ssa.Value, taken bool) {
+			cv, _ := condNeg(cond)
+			if af, _, ok := fieldLoad(stripConv(cv)); ok && af.Name() == "Admin" {
+				return
+			}
+			before := lenZero
+			defer func() {
+				if lenZero == before {
+					extra++ // a condition that is neither the administrator test nor this right's emptiness test
+				}
+			}()
 			b, ok := cond.(*ssa.BinOp)
 			if !ok {
 				return
@@ -206,6 +217,10 @@ func ruleAdminStar(c *Ctx) {
 				}
 			}
 		})
+		if s.has("field.Admin=true") && lenZero && extra > 0 {
+			c.Bad("admin-star:"+f.Name(), p.InstrPos(ins), "the '*' default for "+f.Name()+" depends on a further condition besides (administrator, this right empty): an administrator whose other right is set keeps an empty "+f.Name()+" and is refused everything of that kind")
+			return
+		}
 		c.Decide(s.has("field.Admin=true") && lenZero, "admin-star:"+f.Name(), p.InstrPos(ins), "'*' only for an administrator whose right is empty", "the '*' default for "+f.Name()+" is applied without both conditions (administrator, empty right): an empty right would permit everything for ordinary users")
 	})
 	c.Floor("administrator default assignments", n, 2)
